@@ -65,6 +65,14 @@ class Ref(ast.NodeTransformer):
             return ast.copy_location(call(A, const(evt), self.p(node), expr), expr)
         return expr
 
+    def before(self, evt, node, expr):
+        """a deferred before-expression event: it is delivered before ANYTHING of the anchor is evaluated (the handler may replace
+        the computation), and carries a thunk, so no value is compared"""
+        if evt in self.ev:
+            probe = call(B, const(evt), self.p(node))
+            return ast.copy_location(ast.Subscript(value=ast.Tuple(elts=[probe, expr], ctx=ast.Load()), slice=const(1), ctx=ast.Load()), expr)
+        return expr
+
     def stmt_probe(self, evt, node):
         return ast.Expr(call(B, const(evt), self.p(node)))
 
@@ -81,20 +89,20 @@ class Ref(ast.NodeTransformer):
         return node
 
     def visit_JoinedStr(self, node):
-        return self.after("after_fstring", node, node)        # pyccolo does not descend into f-strings
+        return self.after("after_fstring", node, self.before("before_fstring", node, node))        # pyccolo does not descend into f-strings
 
     def visit_BinOp(self, node):
         orig = node
         l = self.after("left_binop_arg", node.left, self.visit(node.left))
         r = self.after("right_binop_arg", node.right, self.visit(node.right))
         new = ast.BinOp(left=l, op=node.op, right=r)
-        return self.after("after_binop", orig, ast.copy_location(new, orig))
+        return self.after("after_binop", orig, self.before("before_binop", orig, ast.copy_location(new, orig)))
 
     def visit_Compare(self, node):
         l = self.after("left_compare_arg", node.left, self.visit(node.left))
         cs = [self.after("compare_arg", c, self.visit(c)) for c in node.comparators]
         new = ast.copy_location(ast.Compare(left=l, ops=node.ops, comparators=cs), node)
-        return self.after("after_compare", node, new)
+        return self.after("after_compare", node, self.before("before_compare", node, new))
 
     def visit_Call(self, node):
         f = self.visit(node.func)
@@ -144,7 +152,7 @@ class Ref(ast.NodeTransformer):
             else:
                 elts.append(self.after(elt_evt, e, self.visit(e)))
         new = ast.copy_location(type(node)(elts=elts, **({"ctx": node.ctx} if hasattr(node, "ctx") else {})), node)
-        return self.after(lit_evt, node, new)
+        return self.after(lit_evt, node, self.before("before" + lit_evt[5:], node, new))
 
     def visit_List(self, node):
         return self._collection(node, "list_elt", "after_list_literal")
@@ -160,12 +168,12 @@ class Ref(ast.NodeTransformer):
         for k, v in zip(node.keys, node.values):
             ks.append(None if k is None else self.after("dict_key", k, self.visit(k)))
             vs.append(self.after("dict_value", v, self.visit(v)))
-        return self.after("after_dict_literal", node, ast.copy_location(ast.Dict(keys=ks, values=vs), node))
+        return self.after("after_dict_literal", node, self.before("before_dict_literal", node, ast.copy_location(ast.Dict(keys=ks, values=vs), node)))
 
     def visit_Lambda(self, node):
         body = self.after("after_lambda_body", node, self.visit(node.body))
         self.generic_visit(node.args)
-        return self.after("after_lambda", node, ast.copy_location(ast.Lambda(args=node.args, body=body), node))
+        return self.after("after_lambda", node, self.before("before_lambda", node, ast.copy_location(ast.Lambda(args=node.args, body=body), node)))
 
     def _comp(self, node):
         for g in node.generators:
@@ -205,23 +213,23 @@ class Ref(ast.NodeTransformer):
 
     def visit_Assign(self, node):
         node.targets = [self.visit(t) for t in node.targets]
-        node.value = self.after("after_assign_rhs", node.value, self.visit(node.value))
+        node.value = self.after("after_assign_rhs", node.value, self.before("before_assign_rhs", node.value, self.visit(node.value)))
         return node
 
     def visit_AnnAssign(self, node):
         node.target = self.visit(node.target)
         if node.value is not None:
-            node.value = self.after("after_assign_rhs", node.value, self.visit(node.value))
+            node.value = self.after("after_assign_rhs", node.value, self.before("before_assign_rhs", node.value, self.visit(node.value)))
         return node
 
     def visit_AugAssign(self, node):
         node.target = self.visit(node.target)
-        node.value = self.after("after_augassign_rhs", node.value, self.visit(node.value))
+        node.value = self.after("after_augassign_rhs", node.value, self.before("before_augassign_rhs", node.value, self.visit(node.value)))
         return node
 
     def visit_Return(self, node):
         if node.value is not None:
-            node.value = self.after("after_return", node.value, self.visit(node.value))
+            node.value = self.after("after_return", node.value, self.before("before_return", node.value, self.visit(node.value)))
         return node
 
     def visit_If(self, node):
@@ -245,7 +253,7 @@ class Ref(ast.NodeTransformer):
         return node
 
     def visit_For(self, node):
-        node.iter = self.after("after_for_iter", node.iter, self.visit(node.iter))
+        node.iter = self.after("after_for_iter", node.iter, self.before("before_for_iter", node.iter, self.visit(node.iter)))
         node.target = self.visit(node.target)
         node.body = self._loop_body(node, "before_for_loop_body", "after_for_loop_iter")
         node.orelse = self.body(node.orelse)
@@ -321,6 +329,9 @@ SUPPORTED = {
     "after_dict_comprehension_key", "after_dict_comprehension_value", "before_stmt", "after_stmt", "after_expr_stmt", "after_assign_rhs", "after_augassign_rhs",
     "after_return", "after_if_test", "after_while_test", "after_for_iter", "before_for_loop_body", "after_for_loop_iter", "before_while_loop_body",
     "after_while_loop_iter", "before_function_body", "after_function_execution", "decorator", "exception_handler_type",
+    # deferred before-expression events (delivered before anything of the anchor is evaluated; they carry a thunk)
+    "before_binop", "before_compare", "before_fstring", "before_list_literal", "before_tuple_literal", "before_set_literal", "before_dict_literal",
+    "before_lambda", "before_assign_rhs", "before_augassign_rhs", "before_return", "before_for_iter",
 }
 
 
